@@ -1,8 +1,7 @@
 (* Proofs/SamplerReal.v -- the two places of C12 where transcendental functions enter, over Coq's real numbers
    with the genuine sin / cos (the rational model treats np.sin / np.exp as oracles):
      * ComplexSector: m * exp(i theta) has modulus |m|;
-     * RandomFunction (real-valued): |f(x) - center| <= amplitude * input_dim, hence <= amplitude for unary
-       functions, and a drawn function with input_dim = 3 that leaves center +/- amplitude.
+     * RandomFunction (real-valued): |f(x) - center| <= amplitude for every input_dim.
    The coefficients are those the rational model draws (rf_draw), the evaluation points are rational. *)
 From Coq Require Import Lqa Reals Lra Lia ZArith QArith Qreals List.
 From Verif.Lib Require Import QRound.
@@ -56,8 +55,8 @@ Fixpoint rfR_inner (ts : list rf_term) (xs : list Q) : R :=
 
 Fixpoint rsum (l : list R) : R := match l with [] => 0 | x :: r => x + rsum r end.
 
-Definition rfR_component (center amplitude : Q) (num_terms : nat) (rows : list (list rf_term)) (xs : list Q) : R :=
-  rsum (map (fun ts => rfR_inner ts xs) rows) * Q2R amplitude / INR num_terms + Q2R center.
+Definition rfR_component (input_dim : nat) (center amplitude : Q) (num_terms : nat) (rows : list (list rf_term)) (xs : list Q) : R :=
+  rsum (map (fun ts => rfR_inner ts xs) rows) * Q2R amplitude / (INR num_terms * INR input_dim) + Q2R center.
 
 Definition ampl_ok (t : rf_term) : Prop := (-1 <= cre (t_a t) <= 1)%Q.
 
@@ -93,23 +92,26 @@ Proof.
     eapply Rle_trans; [apply Rabs_triang|]. specialize (IH b H3). lra.
 Qed.
 
-(* what the code guarantees, with the genuine sine *)
+(* the declared bound, with the genuine sine *)
 Lemma rfR_component_bound : forall center amplitude (num_terms input_dim : nat) rows xs,
-  (0 <= amplitude)%Q -> (0 < num_terms)%nat -> length rows = num_terms ->
+  (0 <= amplitude)%Q -> (0 < num_terms)%nat -> (0 < input_dim)%nat -> length rows = num_terms ->
   Forall (fun ts => length ts = input_dim /\ Forall ampl_ok ts) rows ->
-  Rabs (rfR_component center amplitude num_terms rows xs - Q2R center) <= Q2R amplitude * INR input_dim.
+  Rabs (rfR_component input_dim center amplitude num_terms rows xs - Q2R center) <= Q2R amplitude.
 Proof.
-  intros center amplitude num_terms input_dim rows xs Ha Hn Hl Hr. unfold rfR_component.
+  intros center amplitude num_terms input_dim rows xs Ha Hn Hi Hl Hr. unfold rfR_component.
   set (S := rsum (map (fun ts => rfR_inner ts xs) rows)).
   assert (HS : Rabs S <= INR num_terms * INR input_dim).
   { unfold S. rewrite <- Hl, <- (map_length (fun ts => rfR_inner ts xs) rows). apply rsum_bound.
     apply Forall_forall. intros y Hy. apply in_map_iff in Hy. destruct Hy as (ts & <- & Hin).
     rewrite Forall_forall in Hr. destruct (Hr ts Hin) as [L T]. rewrite <- L. apply rfR_inner_bound. exact T. }
   assert (HN : 0 < INR num_terms) by (apply lt_0_INR; exact Hn).
+  assert (HK : 0 < INR input_dim) by (apply lt_0_INR; exact Hi).
+  assert (HNK : 0 < INR num_terms * INR input_dim) by (apply Rmult_lt_0_compat; assumption).
   assert (HA : 0 <= Q2R amplitude) by (rewrite <- Q2R_0; apply Qle_Rle; exact Ha).
-  replace (S * Q2R amplitude / INR num_terms + Q2R center - Q2R center) with (S * (Q2R amplitude / INR num_terms)) by (field; lra).
-  rewrite Rabs_mult. rewrite (Rabs_right (Q2R amplitude / INR num_terms)).
-  - replace (Q2R amplitude * INR input_dim) with (INR num_terms * INR input_dim * (Q2R amplitude / INR num_terms)) by (field; lra).
+  set (NK := INR num_terms * INR input_dim) in *.
+  replace (S * Q2R amplitude / NK + Q2R center - Q2R center) with (S * (Q2R amplitude / NK)) by (field; lra).
+  rewrite Rabs_mult. rewrite (Rabs_right (Q2R amplitude / NK)).
+  - replace (Q2R amplitude) with (NK * (Q2R amplitude / NK)) at 2 by (field; lra).
     apply Rmult_le_compat_r; [|exact HS]. apply Rle_mult_inv_pos; assumption.
   - apply Rle_ge. apply Rle_mult_inv_pos; assumption.
 Qed.
@@ -122,73 +124,40 @@ Proof.
 Qed.
 
 Lemma rf_real_sound : forall expi (input_dim output_dim num_terms : nat) center amplitude raw xs,
-  (0 <= amplitude)%Q -> (0 < num_terms)%nat ->
+  (0 <= amplitude)%Q -> (0 < num_terms)%nat -> (0 < input_dim)%nat ->
   rf_shape_ok output_dim num_terms input_dim raw = true -> raw3_ok raw ->
-  Forall (fun rows => Rabs (rfR_component center amplitude num_terms rows xs - Q2R center)
-                      <= Q2R amplitude * INR input_dim) (rf_draw expi false raw).
+  Forall (fun rows => Q2R center - Q2R amplitude <= rfR_component input_dim center amplitude num_terms rows xs
+                      <= Q2R center + Q2R amplitude) (rf_draw expi false raw).
 Proof.
-  intros expi input_dim output_dim num_terms center amplitude raw xs Ha Hn Hshape Hraw.
+  intros expi input_dim output_dim num_terms center amplitude raw xs Ha Hn Hi Hshape Hraw.
   apply rf_shape_ok_spec in Hshape. destruct Hshape as [_ Hrows].
   apply Forall_forall. intros rows' Hin. unfold rf_draw in Hin. apply in_map_iff in Hin. destruct Hin as (rows & <- & Hin).
   rewrite Forall_forall in Hrows. destruct (Hrows rows Hin) as [Lt Li].
   unfold raw3_ok in Hraw. rewrite Forall_forall in Hraw. specialize (Hraw rows Hin).
-  apply rfR_component_bound; try assumption.
-  - rewrite map_length. exact Lt.
-  - apply Forall_forall. intros ts' Hts'. apply in_map_iff in Hts'. destruct Hts' as (ts & <- & Hts).
-    rewrite Forall_forall in Li, Hraw. split; [rewrite map_length; auto|].
-    apply Forall_forall. intros t Ht. apply in_map_iff in Ht. destruct Ht as (r & <- & Hr).
-    specialize (Hraw ts Hts). rewrite Forall_forall in Hraw. apply rf_coeff_ampl_ok. apply Hraw. exact Hr.
-Qed.
-
-Lemma rf_real_unary : forall expi (output_dim num_terms : nat) center amplitude raw xs,
-  (0 <= amplitude)%Q -> (0 < num_terms)%nat ->
-  rf_shape_ok output_dim num_terms 1 raw = true -> raw3_ok raw ->
-  Forall (fun rows => Q2R center - Q2R amplitude <= rfR_component center amplitude num_terms rows xs
-                      <= Q2R center + Q2R amplitude) (rf_draw expi false raw).
-Proof.
-  intros expi output_dim num_terms center amplitude raw xs Ha Hn Hshape Hraw.
-  pose proof (rf_real_sound expi 1 output_dim num_terms center amplitude raw xs Ha Hn Hshape Hraw) as H.
-  eapply Forall_impl; [|exact H]. intros rows Hb. cbv beta in Hb. simpl INR in Hb. rewrite Rmult_1_r in Hb.
+  assert (Hb : Rabs (rfR_component input_dim center amplitude num_terms (map (map (rf_coeff expi false)) rows) xs - Q2R center)
+               <= Q2R amplitude).
+  { apply rfR_component_bound; try assumption.
+    - rewrite map_length. exact Lt.
+    - apply Forall_forall. intros ts' Hts'. apply in_map_iff in Hts'. destruct Hts' as (ts & <- & Hts).
+      rewrite Forall_forall in Li, Hraw. split; [rewrite map_length; auto|].
+      apply Forall_forall. intros t Ht. apply in_map_iff in Ht. destruct Ht as (r & <- & Hr).
+      specialize (Hraw ts Hts). rewrite Forall_forall in Hraw. apply rf_coeff_ampl_ok. apply Hraw. exact Hr. }
   revert Hb. unfold Rabs. destruct (Rcase_abs _); intro Hb; lra.
 Qed.
 
-(* refutation with the genuine sine: input_dim = 3, num_terms = 1, center 0, amplitude 1;
-   raw draws A = 7/8 (amplitude 15/16), B = 1/2 (frequency 0), C = 1/8 (phase np.pi/4): the value is
-   3 * 15/16 * sin(np.pi/4) > 45/32 > 1 at every point *)
+(* regression: the draws that used to exceed the bound with the genuine sine (input_dim = 3, one term,
+   A = 7/8, B = 1/2, C = 1/8 three times) stay inside center +/- amplitude now *)
 Definition rfR_witness_raw : list (list (list rf_raw)) :=
   [[[mkRaw (7#8) 0 (1#2) (1#8); mkRaw (7#8) 0 (1#2) (1#8); mkRaw (7#8) 0 (1#2) (1#8)]]].
 
 Lemma rfR_witness_raw_ok : raw3_ok rfR_witness_raw.
 Proof. unfold raw3_ok, rfR_witness_raw. repeat constructor; simpl; Lqa.lra. Qed.
 
-Lemma sin_quarter_pi_f : 1 / 2 < sin (Q2R (rf_shift (1 # 8))).
+Lemma rf_real_former_witness : forall xs,
+  Forall (fun rows => -1 <= rfR_component 3 0 1 1 rows xs <= 1) (rf_draw (fun _ => c1) false rfR_witness_raw).
 Proof.
-  assert (E : Q2R (rf_shift (1 # 8)) = 884279719003555 / 1125899906842624).
-  { unfold rf_shift, pi_f, Q2R. simpl. lra. }
-  rewrite E. rewrite <- sin_PI6.
-  pose proof PI_4. pose proof PI2_3_2.
-  apply sin_increasing_1; lra.
-Qed.
-
-Lemma rf_real_bound_refuted :
-  exists expi (input_dim output_dim num_terms : nat) center amplitude raw xs,
-    (0 <= amplitude)%Q /\ (0 < num_terms)%nat /\
-    rf_shape_ok output_dim num_terms input_dim raw = true /\ raw3_ok raw /\ length xs = input_dim /\
-    ~ Forall (fun rows => Q2R center - Q2R amplitude <= rfR_component center amplitude num_terms rows xs
-                          <= Q2R center + Q2R amplitude) (rf_draw expi false raw).
-Proof.
-  exists (fun _ => c1), 3%nat, 1%nat, 1%nat, 0%Q, 1%Q, rfR_witness_raw, [2#1; (-5)#3; 1#7].
-  split; [Lqa.lra|]. split; [lia|]. split; [reflexivity|]. split; [exact rfR_witness_raw_ok|]. split; [reflexivity|].
-  set (t := rf_coeff (fun _ => c1) false (mkRaw (7#8) 0 (1#2) (1#8))).
-  assert (Ed : rf_draw (fun _ => c1) false rfR_witness_raw = [[[t; t; t]]]) by reflexivity.
-  rewrite Ed. intro H. inversion H as [|? ? H1 _]; subst. clear H. destruct H1 as [_ H1].
-  cbv [rfR_component rfR_inner rsum map] in H1.
-  pose proof sin_quarter_pi_f as Hs.
-  assert (Ea : Q2R (cre (t_a t)) = 15 / 16).
-  { unfold t, rf_coeff, rf_amp, cre, cofQ, Q2R. simpl. lra. }
-  assert (Eb : Q2R (t_b t) = 0).
-  { unfold t, rf_coeff, rf_freq, Q2R. simpl. lra. }
-  assert (Ec : t_c t = rf_shift (1 # 8)) by reflexivity.
-  rewrite Ea, Eb, Ec in H1. rewrite !Rmult_0_l, !Rplus_0_l in H1.
-  rewrite Q2R_1, Q2R_0 in H1. simpl INR in H1. lra.
+  intro xs.
+  pose proof (rf_real_sound (fun _ => c1) 3 1 1 0%Q 1%Q rfR_witness_raw xs) as H.
+  assert (H' := H ltac:(Lqa.lra) ltac:(lia) ltac:(lia) eq_refl rfR_witness_raw_ok).
+  eapply Forall_impl; [|exact H']. intros rows Hb. cbv beta in Hb. rewrite Q2R_0, Q2R_1 in Hb. lra.
 Qed.
